@@ -39,6 +39,8 @@ SCENARIOS = {
     "asdict-vs-plain": [[("as_dict", ["name", "cpu_times", "uids"])],
                         [("call", "uids"), ("call", "cpu_times")]],
     "blk-vs-blk": [[("block", ["name", "uids"])], [("block", ["cpu_times", "name"])]],
+    "asdict-vs-asdict": [[("as_dict", ["name", "uids"])], [("as_dict", ["cpu_times", "name"])]],
+    "blkexc-vs-plain": [[("block_exc", ["name", "cpu_times"]), ("call", "name")], [("call", "cpu_times"), ("call", "name")]],
     "blk-vs-2plain": [[("block", ["name", "cpu_times"])], [("call", "cpu_times")], [("call", "name"), ("call", "cpu_times")]],
 }
 
@@ -122,6 +124,22 @@ class Harness:
                                     o = outcome(getattr(obj, m))
                                     stamp("call_end", m, o if o[0] == "exc" else ("ok", ver(m, o[1])))
                                 stamp("blk_out")
+                        except BaseException as e:  # noqa: BLE001
+                            stamp("blk_exc", repr(e))
+                        stamp("blk_exit")
+                    elif step[0] == "block_exc":
+                        stamp("blk_enter")
+                        try:
+                            with obj.oneshot():
+                                stamp("blk_in")
+                                for m in step[1]:
+                                    stamp("call_start", m)
+                                    o = outcome(getattr(obj, m))
+                                    stamp("call_end", m, o if o[0] == "exc" else ("ok", ver(m, o[1])))
+                                stamp("blk_out")
+                                raise KeyError("leave the block by an exception")
+                        except KeyError:
+                            pass
                         except BaseException as e:  # noqa: BLE001
                             stamp("blk_exc", repr(e))
                         stamp("blk_exit")
@@ -278,7 +296,7 @@ def run_s(ctx):
             if opc and scn not in ("blk-vs-2plain", "blk-vs-plain"):
                 continue
             b = bound if not opc else 2
-            if not ctx.thorough and scn in ("blk-vs-2plain", "blk2-vs-plain"):
+            if not ctx.thorough and scn in ("blk-vs-2plain", "blk2-vs-plain", "asdict-vs-asdict", "blkexc-vs-plain"):
                 b = 1
             if ctx.thorough and scn == "blk-vs-2plain":
                 b = 2
